@@ -160,3 +160,396 @@ def r02_2(ctx, fi):
                 if call_name(c) == "_check_mode" and args[:1] != [mname]:
                     good = False
         ctx.check("R02.2", key, good, "check is called with other arguments than (x, mode)", fi)
+
+
+# --------------------------------------------------------------------------- R02.3 / R02.4 (mode-specialised)
+from ..consteval import ConstEval, class_resolver, TOP  # noqa: E402
+from ..modespec import Spec  # noqa: E402
+
+CTORS_FIRST = {"Field", "makeField", "MultiField", "full", "from_raw", "cast_domain", "from_random"}
+
+
+def capability_const(model, c):
+    """Constant capability mask assigned in __init__ (or helpers), None if not constant."""
+    vals = set()
+    for k in model.mro(c):
+        for fi in k.methods.values():
+            for st in walk_no_nested(fi.node):
+                if isinstance(st, ast.Assign) and any(is_self_attr(t, "_capability") for t in st.targets):
+                    v = ConstEval({}, class_resolver(model, c)).try_eval(st.value)
+                    vals.add(v if (v is not TOP and isinstance(v, int)) else None)
+                if isinstance(st, ast.AugAssign) and is_self_attr(st.target, "_capability"):
+                    vals.add(None)
+        if vals:
+            break
+    if len(vals) == 1 and None not in vals:
+        return vals.pop()
+    return None
+
+
+def domain_label(e, mode, xn):
+    """Label of a domain-valued expression under fixed mode: 'DOMAIN' | 'TARGET' | None"""
+    s = src(e)
+    if s in ("self._domain", "self.domain"):
+        return "DOMAIN"
+    if s in ("self._target", "self.target"):
+        return "TARGET"
+    if s in (f"{xn}.domain", f"{xn}._domain"):
+        return "DOMAIN" if mode in (1, 8) else "TARGET"
+    if isinstance(e, ast.Call) and src(e.func) in ("self._tgt", "self._dom") and len(e.args) == 1:
+        a = e.args[0]
+        if isinstance(a, ast.Constant) and a.value in (1, 2, 4, 8):
+            dom_modes = (2, 4) if src(e.func) == "self._tgt" else (1, 8)
+            return "DOMAIN" if a.value in dom_modes else "TARGET"
+    return None
+
+
+def result_domain_expr(e):
+    """Domain argument of a locally constructed result, or None."""
+    if not isinstance(e, ast.Call):
+        return None
+    nm = call_name(e)
+    f = src(e.func)
+    if nm in ("Field", "makeField", "MultiField") and f in ("Field", "makeField", "MultiField") and e.args:
+        return e.args[0]
+    if f in ("Field.from_raw", "Field.full", "full", "MultiField.full") and e.args:
+        return e.args[0]
+    if f == "MultiField.from_dict":
+        for kw in e.keywords:
+            if kw.arg == "domain":
+                return kw.value
+        if len(e.args) >= 2:
+            return e.args[1]
+        return None
+    if nm == "cast_domain" and e.args:
+        return e.args[0]
+    return None
+
+
+def spec_returns(model, c, fi, consts, depth=0, env=None):
+    """Specialised return expressions, following `return self._helper(...)` one or two levels."""
+    sp = Spec(model, c, fi, consts).run(env=env)
+    out = []
+    for e, a, st in sp.returns:
+        if depth < 2 and isinstance(e, ast.Call) and isinstance(e.func, ast.Attribute) and isinstance(e.func.value, ast.Name) \
+                and e.func.value.id == "self":
+            callee = model.resolve_method(c, e.func.attr)
+            if callee is not None and callee.cls is not None and callee.name not in ("apply",) and not callee.name.startswith("__"):
+                ps = callee.params()[1:]
+                sub = {}
+                env2 = {}
+                for p, arg in zip(ps, e.args):
+                    if isinstance(arg, ast.Constant):
+                        sub[p] = arg.value
+                    else:
+                        env2[p] = arg
+                for kw in e.keywords:
+                    if isinstance(kw.value, ast.Constant):
+                        sub[kw.arg] = kw.value.value
+                    elif kw.arg:
+                        env2[kw.arg] = kw.value
+                # keep `self.X` constants
+                sub.update({k: v for k, v in consts.items() if "." in k})
+                xarg = None
+                inner, _sp2 = spec_returns(model, c, callee, sub, depth + 1, env2)
+                for e2, a2, st2, xn2, fi2 in inner:
+                    out.append((e2, a + a2, st2, xn2, fi2))
+                continue
+        out.append((e, a, st, None, fi))
+    return out, sp
+
+
+def r02_34(ctx, m, L, E, subs):
+    ctx.rule("R02.3", "capability subset of handled modes: for every mode in a constant capability mask the mode-specialised apply "
+                      "reaches a return with a value (no unconditional raise, no fall-through to None)", floor=30)
+    ctx.rule("R02.4", "mode-typed result domain: under mode m every locally constructed result is built on _tgt(m) (target for "
+                      "TIMES/ADJOINT_INVERSE, domain for ADJOINT/INVERSE); endomorphic operators are exempt from the distinction", floor=40)
+    for c in subs:
+        ap = c.methods.get("apply")
+        if ap is None or len(ap.params()) < 3:
+            continue
+        xn, mn = ap.params()[1:3]
+        cap = capability_const(m, c)
+        endo = E in m.mro(c)
+        modes = [md for md in (1, 2, 4, 8) if cap is None or (cap & md)]
+        for md in modes:
+            try:
+                res, sp = spec_returns(m, c, ap, {mn: md})
+            except RecursionError:
+                ctx.und("R02.3", f"{ap.key}::mode {md}", "specialisation did not terminate", ap)
+                continue
+            if cap is not None:
+                valued = [r for r in res if not (isinstance(r[0], ast.Constant) and r[0].value is None)]
+                key = f"{ap.key}::advertised mode {md} is handled"
+                if valued:
+                    ctx.ok("R02.3", key, f"{len(valued)} return(s)", ap)
+                elif sp.falls_through and not sp.raises:
+                    ctx.bad("R02.3", key, f"capability {cap} advertises mode {md} but apply falls off the end (returns None) for it", ap)
+                elif sp.raises and not res and not sp.falls_through:
+                    ctx.bad("R02.3", key, f"capability {cap} advertises mode {md} but apply always raises for it", ap, sp.raises[0][1])
+                else:
+                    ctx.und("R02.3", key, "no return recognised", ap)
+            for e, assume, st, _, fi_ in res:
+                de = result_domain_expr(e)
+                if de is None:
+                    continue
+                key = f"{ap.key}::mode {md}: `{short(e, 60)}`"
+                lab = domain_label(de, md, xn if fi_ is ap else fi_.params()[1] if len(fi_.params()) > 1 else xn)
+                want = "TARGET" if md in (1, 8) else "DOMAIN"
+                if lab is None:
+                    ctx.und("R02.4", key, f"domain expression `{src(de)}` not classified", fi_, st)
+                elif endo:
+                    ctx.ok("R02.4", key, "endomorphic: domain and target coincide", fi_, st)
+                else:
+                    ctx.check("R02.4", key, lab == want, f"result is labelled with the operator's {lab.lower()} but mode {md} maps onto the "
+                              f"{want.lower()}", fi_, st)
+
+
+_old_run = run
+
+
+def run(ctx):  # noqa: F811
+    _old_run(ctx)
+    m = ctx.model
+    L, E, subs = population(ctx)
+    r02_34(ctx, m, L, E, subs)
+
+
+# --------------------------------------------------------------------------- R02.5 / R02.6
+VIEW_ATTRS = {"real", "imag", "T", "flat"}
+VIEW_CALLS = {"reshape", "view", "ravel", "transpose", "swapaxes", "squeeze", "asnumpy", "astype_view"}
+FRESH_CALLS = {"copy", "val_rw", "asnumpy_rw", "zeros", "empty", "ones", "zeros_like", "empty_like", "ones_like", "full", "full_like",
+               "array", "astype", "conjugate", "conj", "sqrt", "exp", "log", "abs", "sum", "concatenate", "stack", "tile", "repeat",
+               "to_dict", "to_global_data_rw"}
+INPLACE_CALLS = {"fill", "sort", "itemset", "put", "partition", "resize", "setfield"}
+SCATTER_FUNCS = {"add.at", "special_add_at", "copyto", "put_along_axis", "putmask", "place"}
+
+
+def alias_kind(e, xn, env):
+    """'ALIAS' if the expression denotes (a view of) the input's buffer, 'FRESH' if newly allocated, None unknown.
+    env: name -> kind"""
+    if isinstance(e, ast.Name):
+        return env.get(e.id)
+    if isinstance(e, ast.Attribute):
+        if e.attr in ("val", "raw", "_val") and alias_kind(e.value, xn, env) in ("FIELD", "ALIAS"):
+            return "ALIAS"
+        if e.attr in VIEW_ATTRS:
+            return alias_kind(e.value, xn, env) if alias_kind(e.value, xn, env) in ("ALIAS",) else None
+        return None
+    if isinstance(e, ast.Subscript):
+        base = alias_kind(e.value, xn, env)
+        if base == "FIELD":
+            return "FIELD"  # x[key] of a MultiField is a Field
+        if base == "ALIAS":
+            # basic slicing gives a view, advanced indexing a copy: only literal slices / ints / Ellipsis are views
+            def basic(s):
+                if isinstance(s, ast.Slice):
+                    return True
+                if isinstance(s, ast.Constant) and (isinstance(s.value, int) or s.value is Ellipsis):
+                    return True
+                if isinstance(s, ast.Tuple):
+                    return all(basic(x) for x in s.elts)
+                if isinstance(s, ast.Call) and src(s.func) == "slice":
+                    return True
+                return False
+            return "ALIAS" if basic(e.slice) else None
+        return None
+    if isinstance(e, ast.Call):
+        nm = call_name(e)
+        if nm in FRESH_CALLS:
+            return "FRESH"
+        if isinstance(e.func, ast.Attribute) and nm in VIEW_CALLS:
+            b = alias_kind(e.func.value, xn, env)
+            if b == "FIELD" and nm == "asnumpy":
+                return "ALIAS"
+            return "ALIAS" if b == "ALIAS" else None
+        if nm in ("values",) and isinstance(e.func, ast.Attribute) and alias_kind(e.func.value, xn, env) == "FIELD":
+            return None
+        return None
+    if isinstance(e, (ast.BinOp, ast.UnaryOp, ast.Compare)):
+        return "FRESH"
+    if isinstance(e, ast.IfExp):
+        a, b = alias_kind(e.body, xn, env), alias_kind(e.orelse, xn, env)
+        if "ALIAS" in (a, b):
+            return "ALIAS"
+        return a if a == b else None
+    return None
+
+
+def input_mutations(fn_node, xn):
+    """Flow-sensitive (statement order, branches merged pessimistically) scan for stores into aliases of the input buffer.
+    Returns (list of (stmt, description), number of store sites examined)."""
+    found = []
+    sites = [0]
+
+    def store_target(t, env, st):
+        base = t
+        while isinstance(base, (ast.Subscript, ast.Attribute)) and not (isinstance(base, ast.Attribute) and base.attr in ("val", "raw", "_val")):
+            base = base.value
+        k = alias_kind(base, xn, env) if not isinstance(base, ast.Name) else env.get(base.id)
+        sites[0] += 1
+        if k == "ALIAS":
+            found.append((st, f"store into `{src(t)}`, which is (a view of) the input's buffer"))
+
+    def block(body, env):
+        for st in body:
+            if isinstance(st, ast.Assign):
+                for t in st.targets:
+                    if isinstance(t, ast.Subscript):
+                        store_target(t, env, st)
+                    elif isinstance(t, ast.Attribute) and t.attr in ("real", "imag"):
+                        store_target(t, env, st)
+                k = alias_kind(st.value, xn, env)
+                for t in st.targets:
+                    if isinstance(t, ast.Name):
+                        env[t.id] = k
+                    elif isinstance(t, ast.Tuple):
+                        for e in t.elts:
+                            if isinstance(e, ast.Name):
+                                env[e.id] = None
+            elif isinstance(st, ast.AugAssign):
+                t = st.target
+                if isinstance(t, ast.Subscript):
+                    store_target(t, env, st)
+                elif isinstance(t, ast.Name):
+                    sites[0] += 1
+                    if env.get(t.id) == "ALIAS":
+                        found.append((st, f"in-place `{src(st)}` on (a view of) the input's buffer"))
+            elif isinstance(st, ast.Expr) and isinstance(st.value, ast.Call):
+                check_call(st.value, env, st)
+            elif isinstance(st, ast.If):
+                e1, e2 = dict(env), dict(env)
+                block(st.body, e1)
+                block(st.orelse, e2)
+                for k in set(e1) | set(e2):
+                    a, b = e1.get(k), e2.get(k)
+                    env[k] = "ALIAS" if "ALIAS" in (a, b) else (a if a == b else None)
+            elif isinstance(st, (ast.For, ast.While)):
+                if isinstance(st, ast.For):
+                    itk = alias_kind(st.iter, xn, env)
+                    for n in ast.walk(st.target):
+                        if isinstance(n, ast.Name):
+                            env[n.id] = None
+                block(st.body, env)
+                block(st.body, env)
+            elif isinstance(st, ast.With):
+                block(st.body, env)
+            elif isinstance(st, ast.Try):
+                block(st.body, env)
+                for h in st.handlers:
+                    block(h.body, env)
+            if isinstance(st, (ast.Assign, ast.Return, ast.Expr, ast.AugAssign)):
+                for c in ast.walk(st):
+                    if isinstance(c, ast.Call) and not (isinstance(st, ast.Expr) and c is st.value):
+                        check_call(c, env, st)
+
+    def check_call(c, env, st):
+        f = src(c.func)
+        nm = call_name(c)
+        for kw in c.keywords:
+            if kw.arg == "out":
+                sites[0] += 1
+                if alias_kind(kw.value, xn, env) == "ALIAS":
+                    found.append((st, f"`out={src(kw.value)}` writes into the input's buffer"))
+        if any(f.endswith(s_) for s_ in SCATTER_FUNCS) and c.args:
+            sites[0] += 1
+            if alias_kind(c.args[0], xn, env) == "ALIAS":
+                found.append((st, f"`{short(c, 60)}` accumulates into the input's buffer"))
+        if isinstance(c.func, ast.Attribute) and nm in INPLACE_CALLS:
+            sites[0] += 1
+            if alias_kind(c.func.value, xn, env) == "ALIAS":
+                found.append((st, f"`{short(c, 60)}` modifies the input's buffer in place"))
+    block(fn_node.body, {xn: "FIELD"})
+    return found, sites[0]
+
+
+POSITIVE_CONTROL = '''
+class _Bad:
+    def apply(self, x, mode):
+        v = x.val
+        w = v.reshape(-1)
+        w[0] = 0.
+        return x
+'''
+
+
+def r02_56(ctx, m, L, E, subs):
+    ctx.rule("R02.6", "applying an operator never modifies its input: no store (subscript / augmented assignment / out= / scatter / "
+                      "in-place method) targets a name that may denote the input's buffer or a view of it; val_rw()/copy()/arithmetic "
+                      "results are fresh", floor=50)
+    pc = ast.parse(POSITIVE_CONTROL).body[0].body[0]
+    f, _ = input_mutations(pc, "x")
+    if not f:
+        ctx.error("R02.6 positive control (store through a reshaped view of x.val) was not flagged")
+    tot_sites = 0
+    for c in subs:
+        for fi in c.methods.values():
+            ps = fi.params()
+            if fi.name == "apply" and len(ps) >= 2:
+                xn = ps[1]
+            elif len(ps) >= 2 and ps[1] in ("x", "inp", "fld", "field") and fi.name.startswith("_"):
+                xn = ps[1]
+            else:
+                continue
+            found, sites = input_mutations(fi.node, xn)
+            tot_sites += sites
+            ctx.saw_func(fi)
+            key = f"{fi.key}::does not write into `{xn}`"
+            if found:
+                st, why = found[0]
+                ctx.bad("R02.6", key, why + (f" (+{len(found) - 1} more)" if len(found) > 1 else ""), fi, st)
+            else:
+                ctx.ok("R02.6", key, f"{sites} store site(s) examined", fi)
+    ctx.extra["R02.6_store_sites"] = tot_sites
+
+    ctx.rule("R02.5", "accumulate-scatter adjoints: where one direction gathers through an integer index attribute that may repeat, "
+                      "every store through the same index attribute in the class is an accumulating form (np.add.at / special_add_at / +=)", floor=4)
+    # candidates: classes with a gather `a[... self.I ...]` (Load) where I is also used in a store/scatter
+    EXEMPT = {"MaskOperator": "boolean mask (injective)", "SliceOperator": "slices (injective)", "ValueInserter": "single index (injective)",
+              "DomainTupleFieldInserter": "single position (injective)", "LowerTriangularInserter": "index set of distinct positions"}
+    for c in subs:
+        idx_loads, idx_stores, accum = {}, {}, {}
+        for fi in c.methods.values():
+            for n in ast.walk(fi.node):
+                if isinstance(n, ast.Subscript):
+                    attrs = [x.attr for x in ast.walk(n.slice) if is_self_attr(x)]
+                    for a in attrs:
+                        (idx_loads if isinstance(n.ctx, ast.Load) else idx_stores).setdefault(a, []).append((fi, n))
+                if isinstance(n, ast.Call) and any(src(n.func).endswith(s_) for s_ in ("add.at", "special_add_at")):
+                    for arg in n.args[1:3]:
+                        for x in ast.walk(arg):
+                            if is_self_attr(x):
+                                accum.setdefault(x.attr, []).append((fi, n))
+        # only index attributes that some method of the class scatters through with an accumulating primitive, plus the
+        # confirmed gather indices of the frozen table
+        TABLE = {("DOFDistributor", "_dofdex"), ("_Distributor", "_dofdex"), ("RegriddingOperator", "_bindex")}
+        cand = set(accum) | {a for (cn, a) in TABLE if cn == c.name}
+        for a in sorted(cand):
+            key = f"{c.key}::scatter through self.{a} accumulates"
+            if c.name in EXEMPT:
+                ctx.ok("R02.5", key, f"exempt: {EXEMPT[c.name]}", c)
+                continue
+            plain = []
+            for fi, n in idx_stores.get(a, []):
+                # find the enclosing statement
+                for st in ast.walk(fi.node):
+                    if isinstance(st, ast.Assign) and any(t is n for t in st.targets):
+                        plain.append((fi, st))
+                    if isinstance(st, ast.AugAssign) and st.target is n and not isinstance(st.op, ast.Add):
+                        plain.append((fi, st))
+            if plain:
+                fi, st = plain[0]
+                ctx.bad("R02.5", key, f"`{short(st)}` stores through an index that may repeat: contributions overwrite each other instead "
+                                      "of being summed (the adjoint of a gather is a scatter-ADD)", fi, st)
+            else:
+                ctx.ok("R02.5", key, f"accumulating: {[short(n) for _, n in accum.get(a, [])][:2]}", c)
+
+
+_old_run2 = run
+
+
+def run(ctx):  # noqa: F811
+    _old_run2(ctx)
+    m = ctx.model
+    L, E, subs = population(ctx)
+    r02_56(ctx, m, L, E, subs)
